@@ -51,6 +51,7 @@ MIN = {'quick': {'distinct': 20000,
                             'gzip': 100, 'export v4': 150,
                             'tigerxml without VROOT node': 30, 'arity > 6': 50,
                             'brackets_emptypos': 30,
+                            'word starting with # or %%': 60,
                             'gf_separator differs from the labels': 30,
                             'word with non-ASCII space character': 30,
                             'cross-format agreement': 200,
@@ -166,6 +167,9 @@ def make_bank(rng, fmt, decorated, sep, quick=True, unispace=True):
                         gen.WORDS_ASCII + ['-LRB-', '-RRB-', '[', ']', '{',
                                            '}', '-LSB-', 'a[b]'],
                         gen.WORDS_ASCII + gen.WORDS_XML])
+    if rng.random() < 0.15:
+        # tokens that look like markup of the export format but are not
+        words = words + gen.WORDS_HASH
     if unispace and fmt != 'export' and rng.random() < 0.15:
         # characters that are white space for Unicode but not for the formats
         # (the export reader splits fields on any Unicode white space, so the
@@ -412,6 +416,8 @@ def run_case(ctx, case, probe_obj=None):
         ctx.stratum('gzip')
     if case.get('mismatch'):
         ctx.stratum('gf_separator differs from the labels')
+    if any(t['w'][:1] in '#%' for sp in bank for t in gen.tokens_of(sp['root'])):
+        ctx.stratum('word starting with # or %%')
     if any(c in t['w'] for sp in bank for t in gen.tokens_of(sp['root'])
            for c in '\u00a0\u3000\u2009'):
         ctx.stratum('word with non-ASCII space character')
